@@ -14,3 +14,7 @@ pub assume_specification<'a, T: Copy>[ Option::<&'a T>::copied ](o: Option<&'a T
 pub assume_specification[ str::trim ](s: &str) -> (r: &str)
     ensures exists|a: int, b: int| 0 <= a <= b <= s@.len() && r@ == s@.subrange(a, b),
 ;
+// used only with element types whose Clone is a bitwise copy (u8, pairs of id newtypes)
+pub assume_specification<T: Clone>[ <[T]>::to_vec ](s: &[T]) -> (r: Vec<T>)
+    ensures r@ == s@,
+;
